@@ -62,6 +62,12 @@ OBLIGATIONS = (
 )
 _show = T("show", "OP_SHOW", 5, Q, mem=6, replace_calls=["print_to_with:v_print_rec"]); _show.unwindset = list(_show.unwindset) + ["v_print_rec.0:14"]
 OBLIGATIONS = list(OBLIGATIONS) + [_show]
+def TA(m, tiers):
+    return Ob("table.assign.m%d" % m, "C02/table_assign.c", defs=["NS=5", "OP=0", "ELEM_D=6", "MLEN=%d" % m], replace=["Table.c"], unwind=8,
+              unwindset=[x for x in US(5, 5) if not x.startswith("harness.")] + ["harness.%d:26" % i_ for i_ in range(8)] + ["key_id.0:8", "Table_Assign.0:8", "model_get.0:8", "inv.0:8", "inv.1:8", "inv.2:8"],
+              replace_calls=["len:v2_len", "get:v2_get", "implements_method_at_offset:v2_implements", "key_type:v2_key_type", "val_type:v2_val_type"],
+              checks=["bounds", "pointer", "div0"], tiers=tiers, timeout=1800, mem_gb=10, desc="Table assign onto an arbitrary valid 5-slot Table from an abstract source with %d entries (arbitrary hashes and values)" % m)
+OBLIGATIONS = list(OBLIGATIONS) + [TA(0, Q), TA(1, Q), TA(2, Q), TA(3, TH_ if "TH_" in dir() else ("thorough",))]
 LEVEL_TEXT = ("Bounded model checking of the real Table.c: every operation is executed symbolically from an ARBITRARY valid slot layout "
               "(occupancy, keys, values, probe distances, wrap-around, uninterpreted hash function) -- one inductive step per operation and per home slot, "
               "so operation histories of any length are covered for the slot counts explored (1 and 5 quick; 11 thorough), plus the constructor as base case "
